@@ -20,6 +20,8 @@ ANCHORED = [
     "crates/isograph_schema/src/validate.rs",
     # `process_iso_literals` itself (called by validate.rs with the hash map of parse_iso_literals)
     "crates/isograph_schema/src/validated_isograph_schema/isograph_literals.rs",
+    # the property's third mechanism: "sorted iso overloads"
+    "crates/artifact_content/src/iso_overload_file.rs",
 ]
 HASH = r"(?:HashMap|HashSet|DashMap|DashSet|StringKeyMap|StringKeySet|FnvHashMap|FxHashMap|FxHashSet)"
 ITER_METHODS = ["iter", "iter_mut", "values", "values_mut", "keys", "into_iter", "into_values", "into_keys", "drain"]
@@ -100,7 +102,8 @@ def workspace_index():
         for m in re.finditer(r"impl(?:<[^>]*>)?\s+(?:std::ops::)?Deref\s+for\s+(\w+)[^{]*\{\s*type\s+Target\s*=\s*" + HASH, s):
             hash_types.add(m.group(1))
         for m in re.finditer(r"type\s+(\w+)\s*(?:<[^>]*>)?\s*=\s*" + HASH + r"\s*<", s):
-            hash_types.add(m.group(1))
+            if m.group(1) != "Target":      # associated type of the Deref impls handled above
+                hash_types.add(m.group(1))
     ty = HASH + (r"|\b(?:" + "|".join(sorted(hash_types)) + r")\b" if hash_types else "")
     for rel, s in texts.items():
         for m in re.finditer(r"\bfn\s+(\w+)\s*(?:<[^{;]*?>)?\s*\(", s):
@@ -190,16 +193,25 @@ def translate():
             if impl in hash_types and re.search(r"\(\s*&?\s*(?:mut\s+)?self\b", sig):
                 roots.add("self")
 
-            # candidate root occurrences: hash fn calls, hash locals, `.hashfield`
+            # candidate root occurrences: hash fn calls, hash locals, `.hashfield`;
+            # `#[derive(Db)]` (pico) generates `get_<field>()` / `get_<field>_mut()` for every field of the database
+            def is_db_getter(w):
+                if not w.startswith("get_"): return False
+                f = w[4:]
+                if f.endswith("_mut"): f = f[:-4]
+                return f in hash_fields
             cands = []
             for m in re.finditer(r"\b(\w+)\b", body):
                 w = m.group(1)
                 pre = body[:m.start()].rstrip()
                 if w in roots and not pre.endswith(".") and not re.search(r"\blet\s+(?:mut\s+)?$", body[:m.start()]):
                     cands.append((m.start(), m.end(), "local"))
-                elif w in hash_fns and re.match(r"\s*(?:::<[^>]*>)?\s*\(", body[m.end():]) and not re.search(r"\bfn\s+$", body[:m.start()]):
+                elif (w in hash_fns or is_db_getter(w)) and re.match(r"\s*(?:::<[^>]*>)?\s*\(", body[m.end():]) and not re.search(r"\bfn\s+$", body[:m.start()]):
                     j = body.find("(", m.end())
-                    cands.append((m.start(), match_brace(body, j, "(", ")") + 1, "call"))
+                    r0 = m.start()
+                    rm = re.search(r"((?:\b\w+\s*\.\s*)+)$", body[:m.start()])
+                    if rm: r0 = rm.start(1)
+                    cands.append((r0, match_brace(body, j, "(", ")") + 1, "call"))
                 elif w in hash_fields and pre.endswith(".") and not re.match(r"\s*\(", body[m.end():]):
                     # include the receiver in the expression text
                     r0 = m.start()
@@ -214,7 +226,7 @@ def translate():
                 pos = c1
                 verdict = None
                 while True:
-                    mm = re.match(r"\s*(\?|\.\s*(\w+)\s*(?:::<[^>]*>)?\s*(\()?|\.\s*(\d+))", body[pos:])
+                    mm = re.match(r"\s*(\?|\.\s*([A-Za-z_]\w*)\s*(?:::<[^>]*>)?\s*(\()?|\.\s*(\d+))", body[pos:])
                     if not mm:
                         break
                     if mm.group(1) == "?" or mm.group(4) is not None:
@@ -249,10 +261,18 @@ def translate():
                 expr = norm(body[c0:verdict[1]])
                 # original text (strings intact) for the expression
                 expr_src = norm(raw[b0 + c0:b0 + verdict[1]])
+                # the rest of the method chain after the iterator method (adapters, `collect`)
+                chain = []
+                cpos = verdict[1]
+                while True:
+                    cm = re.match(r"\s*\.\s*([A-Za-z_]\w*)\s*(?:::<\s*(\w+)[^(]*>)?\s*\(", body[cpos:])
+                    if not cm: break
+                    chain.append((cm.group(1), cm.group(2)))
+                    cpos = match_brace(body, cpos + cm.end() - 1, "(", ")") + 1
                 # sink hint
                 sinks = set()
                 if in_for:
-                    bstart = body.find("{", verdict[1])
+                    bstart = body.find("{", cpos)
                     bend = match_brace(body, bstart)
                     loop = body[bstart:bend + 1]
                     for sm in re.finditer(r"\b(\w+)\s*\.\s*(push|push_str|insert|extend|entry)\s*\(", loop):
@@ -260,19 +280,16 @@ def translate():
                     for sm in re.finditer(r"\b(\w+)\s*\+=", loop):
                         sinks.add(sm.group(1))
                 else:
-                    # enclosing statement
                     st0 = max(before.rfind(";"), before.rfind("{"), before.rfind("}")) + 1
                     stmt_head = before[st0:]
-                    em = re.search(r"\b(\w+)\s*\.\s*(extend|push|insert)\s*\(\s*$", stmt_head.rstrip() + " " if False else stmt_head)
                     em = re.search(r"\b(\w+)\s*\.\s*(extend|push|insert)\s*\(", stmt_head)
-                    if em: sinks.add(em.group(1))
-                    st1 = body.find(";", verdict[1])
-                    tail = body[verdict[1]:st1 if st1 >= 0 else len(body)]
-                    cm2 = re.search(r"\.collect\s*(?:::<\s*(\w+))?", tail)
-                    if cm2 and not em:
-                        lm = re.search(r"\blet\s+(?:mut\s+)?(\w+)\s*(?::[^=]+)?=\s*$", stmt_head.strip() + " " if False else stmt_head)
+                    if em:
+                        sinks.add(em.group(1))
+                    elif chain and chain[-1][0] == "collect":
                         lm = re.search(r"\blet\s+(?:mut\s+)?(\w+)\b", stmt_head)
-                        sinks.add((lm.group(1) if lm else "<return>") + "=collect" + (":" + cm2.group(1) if cm2.group(1) else ""))
+                        sinks.add((lm.group(1) if lm else "<return>") + "=collect" + (":" + chain[-1][1] if chain[-1][1] else ""))
+                    else:
+                        raise TranslateError(f"{rel}: fn {name}: cannot tell what `{expr_src[:100]}` feeds")
                 hint = ",".join(sorted(x + (":" + decl_types[x] if x in decl_types else "") for x in sinks)) or "-"
                 site = (rel, name, expr_src, hint)
                 if site not in sites:
